@@ -353,7 +353,7 @@ class InitFlow:
     def _reads(self, t, roots, first, defined, local_events, line, exact, whole=False):
         if t is None or not isinstance(t, tuple):
             return
-        terms = [t] if whole else list(sym.subterms(t))
+        terms = [t] if whole else list(sym.loaded_subterms(t))
         for st in terms:
             if st[0] != "idx" and not (st[0] == "fld" and False):
                 continue
